@@ -483,8 +483,9 @@ func (kc *kernelCtx) runFunc0(b *Block) *Unit {
 	for _, n := range availFor(fn) {
 		idents[n] = true
 	}
+	patSeen := map[string]bool{}
 	mkEnv := func(st *State, ex *Exit) *Env {
-		env := &Env{X: x, St: st, Vars: map[string]SVal{}, Recv: recvName, Fields: fields, FieldType: func(f string) types.Type {
+		env := &Env{X: x, St: st, Vars: map[string]SVal{}, PatSeen: patSeen, Recv: recvName, Fields: fields, FieldType: func(f string) types.Type {
 			if ts == nil {
 				return nil
 			}
@@ -662,6 +663,11 @@ func (kc *kernelCtx) runFunc0(b *Block) *Unit {
 			}
 			add("ensures:"+label, g, c.Text, props, &c)
 		}
+	}
+	// a lock-discipline clause about events that no path of the function ever produces says nothing: the name it uses
+	// (an alias, a receiver variable) no longer denotes what the code calls - a binding problem, not a proof
+	for _, pat := range sortedStrs(patSeenFalse(patSeen)) {
+		u.Errs = append(u.Errs, fmt.Sprintf("contract %s does not bind: no event of the function matches %s (named by heldat / notheldat)", b.Name, pat))
 	}
 	names := make([]string, 0, len(byName))
 	for n := range byName {
@@ -1352,5 +1358,15 @@ func callFingerprint(fn *ssa.Function) []string {
 		out = append(out, n)
 	}
 	sort.Strings(out)
+	return out
+}
+
+func patSeenFalse(m map[string]bool) map[string]bool {
+	out := map[string]bool{}
+	for k, v := range m {
+		if !v {
+			out[k] = true
+		}
+	}
 	return out
 }
